@@ -73,7 +73,7 @@ IsZeroFee(ct) == ct = "zerofee"
 (*  [fam |-> "sweep", api |-> "delayed" | "cphtlc" | "justice", ct,         *)
 (*   delay   the contest delay the counterparty selected (to_self_delay of   *)
 (*           the holder's delayed outputs),                                  *)
-(*   height, now      chain height of the channel's monitor, wall clock,     *)
+(*   height, now      chain height (the node's tracker), wall clock,         *)
 (*   allow            the allowlist (set of tokens),                         *)
 (*   path             wallet path hint of the request,                       *)
 (*   ver, lt, input (0-based), seqs (one per input),                         *)
